@@ -187,8 +187,8 @@ def _c06_vm_sample(d, tier, coq, build, want=120):
 
 CONFIG = {
     "properties_file": "Properties/C06.v",
-    "proof_files": ["Base/Prelude.v", "Proofs/Stores.v", "Proofs/StoresConc.v", "Proofs/StoresConcOci.v", "Proofs/StoresConcOci2.v", "Proofs/StoresConcFile.v", "Proofs/StoresFile.v", "Proofs/StoresConcFileGraph.v", "Proofs/StoresConcReads.v", "Proofs/StoresFileSpec.v"],
-    "model_files": ["Generated/GC06.v", "Model/Stores.v", "Model/StoresFileSpec.v", "Model/StoresConc.v", "Model/StoresConcOci.v", "Model/StoresConcFile.v"],
+    "proof_files": ["Base/Prelude.v", "Proofs/Stores.v", "Proofs/StoresConc.v", "Proofs/StoresConcOci.v", "Proofs/StoresConcOci2.v", "Proofs/StoresConcFile.v", "Proofs/StoresFile.v", "Proofs/StoresConcFileGraph.v", "Proofs/StoresConcReads.v", "Proofs/StoresFileSpec.v", "Proofs/StoresFileLimit.v"],
+    "model_files": ["Generated/GC06.v", "Model/Stores.v", "Model/StoresFileSpec.v", "Model/StoresFileLimit.v", "Model/StoresConc.v", "Model/StoresConcOci.v", "Model/StoresConcFile.v"],
     "extract": "XC06.v",
     "ml_main": "c06_main.ml",
     "harness": "c06",
@@ -202,13 +202,13 @@ CONFIG = {
         "OCI theorems C06_refines_oci / C06_failed_noop_oci assume a universe function U (digest -> media type, size) with every descriptor of the history canonical: Tag/Delete/Push with a descriptor whose media type or size differs from the stored one are caller inconsistencies (DESIGN section 6); satisfiable: Example C06_ex_canon",
         "OCI Tag: refusal of another content's digest string as reference and the graph.Index step on manifest descriptors are modelled (sequential and as an atomic step of the interleaving model); a descriptor with a manifest media type on bytes that do not decode is outside the quantifier (well-formed manifests) and not generated; non-UTF-8 references are not generated",
         "OCI: AutoGC off, GC never called (C09 owns F1-F4); index.json / saveIndex persistence not modelled (C08, C10); invalid digest strings are not generated (blobPath -> ErrInvalidDigest); Store.delete's re-listing of dangling manifests without a digest entry (754da6c) is not modelled: on a store built by Push every stored manifest has its digest entry (invariant qdig of C06_quiescent_serialisable_oci_full), so the loop is a no-op there",
-        "file store: a path is identified with the clean relative name it came from except one aliasing name and one traversing name of the universe (symlinks, real path resolution: C11); restoreDuplicates / restoreDuplicatesOfSkipped with titled successors are modelled sequentially (file_restore); pushDir/unpack, Add, Close, the fallback size limit (NewWithFallbackLimit), ForceCAS/SkipUnpack/PreservePermissions are not modelled; annotation-set ids are numbered so that id/8 is the title",
+        "file store: a path is identified with the clean relative name it came from except one aliasing name and one traversing name of the universe (symlinks, real path resolution: C11); restoreDuplicates / restoreDuplicatesOfSkipped with titled successors are modelled sequentially (file_restore); the fallback push limit (NewWithFallbackLimit -> content.LimitedStorage.Push refuses expected.Size > limit before anything is read) is modelled as file_step_lim (Model/StoresFileLimit.v) and run as store kind fileL0 with limit 400; the fixed 4 MiB guard of restoreDuplicatesOfSkipped (IgnoreNoName) is not reached by the generated sizes; pushDir/unpack, Add, Close, ForceCAS/SkipUnpack/PreservePermissions are not modelled; annotation-set ids are numbered so that id/8 is the title",
         "concurrency theorem: sync.Map Load/LoadOrStore, the resolver RWMutex section and the graph lock section are the atomic steps (Go memory model / scheduler: modelled, not verified); proved for the memory store and (content map, all Resolve answers, Predecessors; Delete exclusive; collision-free universe B) for the OCI store; for the file store the per-name lock section of a named push is one atomic step (the window between digestToPath.Store and exists := true, in which readers of that name block on the status lock, is not modelled), store and graph.Index are separate steps, content is untitled and names do not alias; C06_reads_linearisable_* treat Fetch/Exists/Resolve as one atomic read (the real file-store Fetch reads name status, digestToPath and the file one after the other -- all monotone without Delete)",
-        "order of effects inside the modelled functions (store before index before restore, stat before ingest before rename, untag before graph.Remove before storage.Delete, Load/ReadAll/LoadOrStore and no plain Store, name status before digestToPath before fallback ...): re-read from the Go sources on every run by translator kind c06_callseq (19 functions) and checked by C06_call_order_from_source (40 order facts); the bodies of 58 functions are anchored (any edit fails layer T until re-baselined)",
+        "order of effects inside the modelled functions (store before index before restore, stat before ingest before rename, untag before graph.Remove before storage.Delete, Load/ReadAll/LoadOrStore and no plain Store, name status before digestToPath before fallback ...): re-read from the Go sources on every run by translator kind c06_callseq (19 functions) and checked by C06_call_order_from_source (40 order facts); the guards of the limit refusal (`expected.Size > ls.PushLimit`, fallback reached for `name == \"\"` only) are regenerated by translator kind callguards and checked by C06_limit_guards_from_source; the bodies of 61 functions are anchored (any edit fails layer T until re-baselined)",
         "Predecessors results are compared as sets projected to descriptor.FromOCI (media type, digest, size); Tags compared sorted; after every sequential history on the OCI and file stores the regular files on disk (blob files / files below the working directory: path, digest of the bytes, length; left-over ingest files) are compared with the model's o_blobs / f_disk (not after a second name overwrote a file: known finding file-name-alias-overwrite)",
     ],
-    "level_text": "Coq theorems over all operation histories: the memory store (cas.Memory + resolver.Memory{index,tags} + graph.Memory{nodes,predecessors,successors}) and the OCI layout store (blobs by digest + implicit tag-by-digest + Resolve/resolveBlob fallback + Untag + Delete without AutoGC + Tags) refine an abstract content map + tag map (equal outputs, equal maps, Predecessors = stored manifests whose successor list contains the node); a refused or failed operation leaves the whole concrete state unchanged; Fetch returns exactly the pushed bytes, re-push is already-exists and a no-op, Resolve returns the most recent Tag, absent content is not-found, Delete clears content and names; the Delete loop is independent of Go's map iteration order; file store: no Fetch returns bytes not matching the digest, failed operations are no-ops on the repaired code (refuted with a witness on the code as found), duplicate-name; every interleaving of the atomic steps of the memory store, of the OCI store (Delete exclusive) and of the file store (untitled content, no aliasing name) reaches at quiescence the state -- content, tags and Predecessors -- of a sequential order that keeps program order, and at EVERY reachable configuration Fetch/Exists/Resolve (and the names OCI Tags lists: C06_tags_linearisable_oci) answer like the sequential execution of the commit log (C06_reads_linearisable_memory/_oci/_file); the accept/refuse decision of a Push is the sequential one at every reachable configuration of the memory and file stores (C06_push_decision_linearisable_memory/_file; refuted for OCI); presence in the file store is monotone for every history and option setting (C06_presence_monotone_file); the file store refines an abstract content-map specification on every history without an aliasing name (C06_refines_file: equal outputs step by step; restoreDuplicates included) and its Predecessors are exactly the indexed nodes whose bytes list the node (C06_predecessors_exact_file). Tied to the code by differential runs of random histories (three store kinds, option matrix, concurrent goroutines with a serialisability search on the extracted model) and an independent reference oracle",
-    "level_note": "OCI sequential theorems hold for histories that push and delete content under one descriptor per digest (Fetch/Exists/Tag/Predecessors may use any descriptor of the digest, e.g. the octet-stream one Resolve(<digest>) returns); deleting with a descriptor of another media type leaves a stale graph node (not observable through Predecessors) and is outside the theorems but generated. File store: clause theorems (fetch returns pushed/matches digest, duplicate-name, unnamed re-push refused, resolve-latest, absent-is-not-found, failed-noop) hold -- the first and the last two of them without the aliasing name (two names for one path) and, for failed-noop and the concurrency theorem, without titled successors; the file-store refinement (C06_refines_file) and the Predecessors theorems (C06_predecessors_exact_file, C06_push_ok_indexed_file, C06_quiescent_serialisable_file_graph) assume the repaired pushFile, no aliasing name and (Predecessors) collision-free bytes B -- Examples C06_ex_file_graph_wf / C06_ex_file_graph_conc_good show the hypotheses satisfiable; with IgnoreNoName an unnamed Push returns nil and discards the content, so 'Fetch returns the pushed bytes' does not apply to it (oracle clause push-ignored). Five file-store behaviours and one OCI behaviour that contradict the statement are known findings, each with a _refuted witness on the model and a dedicated oracle clause (unnamed re-push of content present through a named file; LimitedStorage cuts trailing data; second name for a path; restoreDuplicates failing after the store; titled restore under concurrency; racing OCI pushes all succeed). Known finding file-conc-titled-restore-not-serialisable (new in the extension round): file.Store.Push = store ; graph.Index ; restoreDuplicates is not atomic, so with a titled successor a concurrent duplicate-name push followed by the layer push lets the first push restore a file no sequential order creates (witness C06_quiescent_serialisable_file_titled_refuted; reported by a directed two-goroutine scenario, replay corpus/C06/file-conc-titled-restore-not-serialisable.json) -- the random concurrent streams and the concurrency theorems use untitled content. Concurrency: in the serialisability search the outputs of concurrent operations are constrained where one atomic step (or a read of monotone maps) decides them -- memory: all but Predecessors; file: Push, Fetch, Exists, Resolve; OCI: Fetch, Exists, Resolve by name (OCI Push is not: known finding oci-racing-pushes-all-succeed, witness C06_repush_refused_oci_racing_refuted; OCI Resolve by digest may see a manifest blob before its digest tag); every store operation runs under a 25 s watchdog (a wedge is an ORACLE FAIL 'wedged' with the history in flight). Not generated: oci.ReadOnlyStore (NewFromFS/NewFromTar), GC/AutoGC (C09), index.json contents (C08), file ForceCAS/SkipUnpack/pushDir/AllowPathTraversalOnWrite/NewWithFallbackLimit/Storage, sizes above the 4 MiB fallback limit or the 1 MiB copy buffer, invalid digests, Close.",
+    "level_text": "Coq theorems over all operation histories: the memory store (cas.Memory + resolver.Memory{index,tags} + graph.Memory{nodes,predecessors,successors}) and the OCI layout store (blobs by digest + implicit tag-by-digest + Resolve/resolveBlob fallback + Untag + Delete without AutoGC + Tags) refine an abstract content map + tag map (equal outputs, equal maps, Predecessors = stored manifests whose successor list contains the node); a refused or failed operation leaves the whole concrete state unchanged; Fetch returns exactly the pushed bytes, re-push is already-exists and a no-op, Resolve returns the most recent Tag, absent content is not-found, Delete clears content and names; the Delete loop is independent of Go's map iteration order; file store: no Fetch returns bytes not matching the digest, failed operations are no-ops on the repaired code (refuted with a witness on the code as found), duplicate-name; every interleaving of the atomic steps of the memory store, of the OCI store (Delete exclusive) and of the file store (untitled content, no aliasing name) reaches at quiescence the state -- content, tags and Predecessors -- of a sequential order that keeps program order, and at EVERY reachable configuration Fetch/Exists/Resolve (and the names OCI Tags lists: C06_tags_linearisable_oci) answer like the sequential execution of the commit log (C06_reads_linearisable_memory/_oci/_file); the accept/refuse decision of a Push is the sequential one at every reachable configuration of the memory and file stores (C06_push_decision_linearisable_memory/_file; refuted for OCI); presence in the file store is monotone for every history and option setting (C06_presence_monotone_file); file store with a fallback push limit: exactly the oversized unnamed pushes are refused and the refusal is a no-op (C06_limit_refusal_iff_file, C06_limit_refusal_noop_file), nothing above the limit is ever in the fallback storage for EVERY history and option setting (C06_limit_bounds_fallback_file), refinement and fetch-matches carry over (C06_refines_file_limit, C06_fetch_matches_digest_file_limit), below the limit it is unobservable (C06_limit_unobservable_below_file), and for every history the limited store is the unlimited one run on the history without its oversized unnamed pushes (C06_limit_is_filter_file); the file store refines an abstract content-map specification on every history without an aliasing name (C06_refines_file: equal outputs step by step; restoreDuplicates included) and its Predecessors are exactly the indexed nodes whose bytes list the node (C06_predecessors_exact_file). Tied to the code by differential runs of random histories (three store kinds, option matrix, concurrent goroutines with a serialisability search on the extracted model) and an independent reference oracle",
+    "level_note": "OCI sequential theorems hold for histories that push and delete content under one descriptor per digest (Fetch/Exists/Tag/Predecessors may use any descriptor of the digest, e.g. the octet-stream one Resolve(<digest>) returns); deleting with a descriptor of another media type leaves a stale graph node (not observable through Predecessors) and is outside the theorems but generated. File store: clause theorems (fetch returns pushed/matches digest, duplicate-name, unnamed re-push refused, resolve-latest, absent-is-not-found, failed-noop) hold -- the first and the last two of them without the aliasing name (two names for one path) and, for failed-noop and the concurrency theorem, without titled successors; the file-store refinement (C06_refines_file) and the Predecessors theorems (C06_predecessors_exact_file, C06_push_ok_indexed_file, C06_quiescent_serialisable_file_graph) assume the repaired pushFile, no aliasing name and (Predecessors) collision-free bytes B -- Examples C06_ex_file_graph_wf / C06_ex_file_graph_conc_good show the hypotheses satisfiable; with IgnoreNoName an unnamed Push returns nil and discards the content, so 'Fetch returns the pushed bytes' does not apply to it (oracle clause push-ignored). Five file-store behaviours and one OCI behaviour that contradict the statement are known findings, each with a _refuted witness on the model and a dedicated oracle clause (unnamed re-push of content present through a named file; LimitedStorage cuts trailing data; second name for a path; restoreDuplicates failing after the store; titled restore under concurrency; racing OCI pushes all succeed). Known finding file-conc-titled-restore-not-serialisable (new in the extension round): file.Store.Push = store ; graph.Index ; restoreDuplicates is not atomic, so with a titled successor a concurrent duplicate-name push followed by the layer push lets the first push restore a file no sequential order creates (witness C06_quiescent_serialisable_file_titled_refuted; reported by a directed two-goroutine scenario, replay corpus/C06/file-conc-titled-restore-not-serialisable.json) -- the random concurrent streams and the concurrency theorems use untitled content. Concurrency: in the serialisability search the outputs of concurrent operations are constrained where one atomic step (or a read of monotone maps) decides them -- memory: all but Predecessors; file: Push, Fetch, Exists, Resolve; OCI: Fetch, Exists, Resolve by name (OCI Push is not: known finding oci-racing-pushes-all-succeed, witness C06_repush_refused_oci_racing_refuted; OCI Resolve by digest may see a manifest blob before its digest tag); every store operation runs under a 25 s watchdog (a wedge is an ORACLE FAIL 'wedged' with the history in flight). Not generated: oci.ReadOnlyStore (NewFromFS/NewFromTar), GC/AutoGC (C09), index.json contents (C08), file ForceCAS/SkipUnpack/pushDir/AllowPathTraversalOnWrite/NewWithFallbackStorage with a foreign storage, concurrent histories on the limited store (sequential only: the limit check reads no shared state), sizes above the 4 MiB default limit or the 1 MiB copy buffer, invalid digests, Close.",
     "technique": "machine-checked proof in Coq (refinement of the concrete store state machines to a content map + tag map, invariants by induction over histories, LTS invariants over all interleavings for the memory, OCI and file stores) + translator-regenerated media-type tables and call sequences + model/implementation correspondence on random histories + independent reference oracle",
     "explanation": "theorems quantify over every finite history (and, for each of the three stores, every schedule of atomic steps); the harness replays random histories over small universes of real blobs/manifests/references on memory.Store, oci.Store and file.Store (IgnoreNoName/DisableOverwrite matrix), compares every result with the extracted model, judges every step against its own content/tag maps and the DAG generator's ground truth, reads the whole state back around failed operations, compares the files on disk with the model's, and for concurrent histories searches a sequential order (respecting real time) of the same operations whose constrained outputs, final observable state and files on disk match",
 }
